@@ -746,3 +746,73 @@ func resolveRaw(v ssa.Value) []ssa.Value {
 	}
 	return vals
 }
+
+// ---- path enumeration to an instruction ----
+
+// pathsTo enumerates acyclic CFG paths from the entry of f to the block of `at`, returning for each the branch
+// decisions taken (every If on the path, with the truth of the edge followed). Loops are cut: a block appears at most
+// once per path. The enumeration stops at limit paths (the caller must treat hitting the limit as undecided).
+func pathsTo(f *ssa.Function, at ssa.Instruction, limit int) (paths [][]Fact, complete bool) {
+	target := at.Block()
+	// blocks from which target is reachable
+	canReach := map[*ssa.BasicBlock]bool{}
+	var mark func(b *ssa.BasicBlock)
+	mark = func(b *ssa.BasicBlock) {
+		if canReach[b] {
+			return
+		}
+		canReach[b] = true
+		for _, p := range b.Preds {
+			mark(p)
+		}
+	}
+	mark(target)
+	complete = true
+	var walk func(b *ssa.BasicBlock, facts []Fact, seen map[*ssa.BasicBlock]bool)
+	walk = func(b *ssa.BasicBlock, facts []Fact, seen map[*ssa.BasicBlock]bool) {
+		if len(paths) >= limit {
+			complete = false
+			return
+		}
+		if b == target {
+			paths = append(paths, append([]Fact(nil), facts...))
+			return
+		}
+		if seen[b] || !canReach[b] {
+			return
+		}
+		seen[b] = true
+		defer delete(seen, b)
+		last := b.Instrs[len(b.Instrs)-1]
+		if iff, ok := last.(*ssa.If); ok {
+			walk(b.Succs[0], append(append([]Fact(nil), facts...), Fact{iff.Cond, true, iff}), seen)
+			walk(b.Succs[1], append(append([]Fact(nil), facts...), Fact{iff.Cond, false, iff}), seen)
+			return
+		}
+		for _, s := range b.Succs {
+			if f.Recover != nil && s == f.Recover {
+				continue
+			}
+			walk(s, facts, seen)
+		}
+	}
+	if len(f.Blocks) > 0 {
+		walk(f.Blocks[0], nil, map[*ssa.BasicBlock]bool{})
+	}
+	return
+}
+
+// callFact: the fact is the boolean result of a call of method `name` (possibly negated); returns the call and the truth
+// of the call's result on this path.
+func callFact(fa Fact, name string) (*ssa.Call, bool, bool) {
+	v, truth := normCond(fa.Cond, fa.Truth)
+	c, ok := v.(*ssa.Call)
+	if !ok {
+		return nil, false, false
+	}
+	fn := calleeFunc(c)
+	if fn == nil || fn.Name() != name {
+		return nil, false, false
+	}
+	return c, truth, true
+}
